@@ -20,7 +20,7 @@ func init() {
 		Run:     runC08,
 		Explanation: "Only the structural guards of serialisation (the byte-level correctness of the escaper and round trips are value-level and NOT decided): (punctuation) FieldSet.MarshalGQL and Array.MarshalGQL write the " +
 			"matching open/close token exactly once (open first, close last on every path), the comma only on the index != 0 edge before the element, and FieldSet writes key (through the quoting sink), colon, value in " +
-			"that order; (string-sink) in package graphql's built-in marshalers a caller-supplied string reaches an io.Writer only through writeQuotedString, strconv.Quote or encoding/json; (float-guard) " +
+			"that order; (string-sink) in package graphql's built-in marshalers a caller-supplied string reaches an io.Writer only through writeQuotedString, strconv.Quote or encoding/json; (time-codec) MarshalTime's constant layout keeps date, time, nanoseconds and zone offset and UnmarshalTime parses that layout; (float-guard) " +
 			"MarshalFloatContext formats only on the !IsInf && !IsNaN edge; (lossy-conv) every narrowing or sign-changing integer conversion in graphql.Unmarshal*/safeCast* is dominated by range tests of the same " +
 			"value against constants inside the target type's range; (utf8) the quoting sink performs a UTF-8 validity operation.",
 		NotDecided:  "byte-level correctness of writeQuotedString's escapes, decode(encode(v)) == v for every value, Time/Duration/UUID/Map/Any encodings (delegated to the standard library)",
@@ -230,6 +230,7 @@ func runC08(c *Ctx) {
 	}
 
 	lossyConv(c, "C08")
+	c08TimeCodec(c)
 
 	// ---------------------------------------------------------------------------------------------
 	c.R.Rule("utf8", "the quoting sink (writeQuotedString) reaches a UTF-8 validity operation (utf8.RuneError comparison, utf8.Valid*, strings.ToValidUTF8), and its replacement branch depends on the decoded width so that an encoded U+FFFD is preserved", 2)
